@@ -378,9 +378,15 @@ class MemBudget:
 MEM = MemBudget(int(os.environ.get("VF_MEM_GB", "44")))
 
 
+DEADLINE = [None]     # wall-clock budget of the whole run (thorough tier): cases not started by then are reported as undecided
+
+
 def run_case(c, tier, keep=False):
     w = MEM.acquire(c.get("mem_gb", 3))
     try:
+        if DEADLINE[0] is not None and time.time() > DEADLINE[0]:
+            c.status, c.detail, c.wall_s = "undecided", "not started: the run's wall-clock budget (VF_WALL_BUDGET) was used up", 0.0
+            return c
         return run_case_(c, tier, keep)
     finally:
         MEM.release(w)
@@ -397,10 +403,10 @@ def run_case_(c, tier, keep=False):
         c.wall_s = time.time() - t0
         return c
     timeout = c.get("timeout", 300)
-    if os.environ.get("VF_TIMEOUT"):
-        timeout = int(os.environ["VF_TIMEOUT"])
     if tier == "thorough":
         timeout = c.get("timeout_thorough", timeout * 2)
+    if os.environ.get("VF_TIMEOUT"):
+        timeout = int(os.environ["VF_TIMEOUT"])       # explicit cap wins in both tiers
     memcap = int(max(c.get("mem_gb", 3) * 2, 6) * 1024 * 1024)   # hard cap = twice the declared budget (>= 6 GB)
     sel = []
     ex_re, only_re = list(c.get("exclude_properties_re") or []), c.get("only_properties_re")
@@ -804,6 +810,8 @@ def check(pid, tier, only=None, jobs=None, keep=False):
         print("no harness cases for %s" % pid)
         return 2
     jobs = jobs or int(os.environ.get("VF_JOBS", "0") or 0) or min(16, os.cpu_count() or 4)
+    budget = int(os.environ.get("VF_WALL_BUDGET", "0") or 0) or (3 * 3600 if tier == "thorough" else 0)
+    DEADLINE[0] = (t0 + budget) if budget else None
     # pre-build distinct unit binaries serially-parallel to avoid races
     cases.sort(key=lambda c: -c.get("cost", 1))
     done = []
